@@ -421,10 +421,142 @@ def rule_openers(prog, fixture=False):
     return r
 
 
+# ---------------------------------------------------------------- R-C10-6
+def _size_of(e, buf_d):
+    """e is <buf>.size() or a never-reassigned local initialised from it."""
+    e = strip_all(e)
+    if e is None:
+        return False
+    if e.get("k") == "CXXMemberCallExpr":
+        cal = strip(e["c"][0])
+        return bool(cal and cal.get("n") == "size" and cal.get("c") and (strip_all(cal["c"][0]) or {}).get("d") == buf_d)
+    return False
+
+
+def rule_read_length(prog, fixture=False):
+    from . import c07
+    r = RuleResult("R-C10-6", "both implementations of FileAccess::read(pos, len) - plain and decompressed - never "
+                   "grow the returned buffer beyond len: each chunk is min(..., what is still missing), so the "
+                   "compressed and the plain path return the same bytes for the same request", floor=0 if fixture else 2)
+    keys = c07._read_calls(prog) if not fixture else set()
+    fns = [f for f in prog.functions.values() if (f.key in keys or (fixture and f.name == "read")) and len(f.params) == 2]
+    for fn in fns:
+        lenp = fn.params[1]
+        # the buffer that is returned
+        rets = [strip_all(n["c"][0]) for n in fn.walk() if n.get("k") == "ReturnStmt" and n.get("c")]
+        bufs = set()
+        for e in rets:
+            x = e
+            while x is not None and x.get("k") == "CXXConstructExpr" and len(x.get("c", [])) == 1:
+                x = strip_all(x["c"][0])
+            if x is not None and x.get("k") == "DeclRefExpr" and x.get("dk") == "Var":
+                bufs.add(x["d"])
+        for bd in bufs:
+            sizes = {}      # locals holding buf.size()
+            for v in fn.walk():
+                if v.get("k") == "VarDecl" and v.get("c") and _size_of(v["c"][0], bd):
+                    sizes[v["d"]] = v
+            # "remaining" variables: start at len, only ever decreased
+            remaining = set()
+            for v in fn.walk():
+                if v.get("k") == "VarDecl" and v.get("c"):
+                    i = strip_all(v["c"][0])
+                    if i is not None and i.get("k") == "DeclRefExpr" and i.get("d") == lenp["d"]:
+                        ok = True
+                        for w in fn.walk():
+                            if w.get("k") in ("BinaryOperator", "CompoundAssignOperator") and w.get("op") in flow.ASSIGN_OPS and \
+                                    (strip_all(w["c"][0]) or {}).get("d") == v["d"] and w.get("op") != "-=":
+                                ok = False
+                        # ... and it is brought down by what each round keeps in the buffer
+                        decs = [w for w in fn.walk() if w.get("k") == "CompoundAssignOperator" and w.get("op") == "-=" and
+                                (strip_all(w["c"][0]) or {}).get("d") == v["d"]]
+                        kept = set()
+                        for w in fn.walk():
+                            if w.get("k") == "CXXMemberCallExpr" and (strip(w["c"][0]) or {}).get("n") == "resize":
+                                for x in walk(w["c"][1]) if len(w["c"]) > 1 else []:
+                                    if x.get("k") == "DeclRefExpr" and x.get("dk") == "Var":
+                                        kept.add(x["d"])
+                        if ok and decs and all((strip_all(w["c"][1]) or {}).get("d") in kept for w in decs):
+                            remaining.add(v["d"])
+
+            def missing_amount(e):
+                """e is `len - <current size>` or a remaining-variable"""
+                e = strip_all(e)
+                if e is None:
+                    return False
+                if e.get("k") == "DeclRefExpr" and e.get("d") in remaining:
+                    return True
+                if e.get("k") == "BinaryOperator" and e.get("op") == "-":
+                    a, b = strip_all(e["c"][0]), strip_all(e["c"][1])
+                    if a is not None and a.get("k") == "DeclRefExpr" and a.get("d") == lenp["d"]:
+                        return _size_of(b, bd) or (b is not None and b.get("k") == "DeclRefExpr" and b.get("d") in sizes)
+                return False
+
+            def bounded(e, depth=0):
+                """True: e <= missing amount; False: certainly not bounded by it; None: cannot tell"""
+                e = strip_all(e)
+                if e is None or depth > 4:
+                    return None
+                if missing_amount(e):
+                    return True
+                if e.get("k") == "CallExpr" and notpl(e.get("q") or "") == "std::min":
+                    args = call_args(e)
+                    res = [bounded(a, depth + 1) for a in args]
+                    if any(x is True for x in res):
+                        return True
+                    if all(x is False for x in res):
+                        return False
+                    return None
+                if folded(e) is not None:
+                    return False
+                if e.get("k") == "DeclRefExpr" and e.get("dk") == "ParmVar":
+                    return False
+                if e.get("k") == "DeclRefExpr" and e.get("dk") == "Var":
+                    for v in fn.walk():
+                        if v.get("k") == "VarDecl" and v.get("d") == e.get("d") and v.get("c"):
+                            # the amount a read call delivered is bounded by the amount requested
+                            i = strip_all(v["c"][0])
+                            if i is not None and i.get("k") == "CallExpr" and notpl(i.get("q") or "") == "fread":
+                                return bounded(call_args(i)[2], depth + 1)
+                            return bounded(v["c"][0], depth + 1)
+                if e.get("k") == "CXXMemberCallExpr" and (strip(e["c"][0]) or {}).get("n") == "gcount":
+                    # gcount() after read(p, want)
+                    for w in fn.walk():
+                        if w.get("k") == "CXXMemberCallExpr" and (strip(w["c"][0]) or {}).get("n") == "read" and len(w["c"]) == 3:
+                            return bounded(w["c"][2], depth + 1)
+                return None
+            k = 0
+            for n in fn.walk():
+                if n.get("k") != "CXXMemberCallExpr":
+                    continue
+                cal = strip(n["c"][0])
+                if not (cal and cal.get("n") == "resize" and cal.get("c") and (strip_all(cal["c"][0]) or {}).get("d") == bd):
+                    continue
+                arg = strip_all(n["c"][1])
+                k += 1
+                key = "%s::%s::resize#%d" % (fn.relfile(), fn.qn, k)
+                verdict = None
+                if arg is not None and arg.get("k") == "BinaryOperator" and arg.get("op") == "+":
+                    a, b = strip_all(arg["c"][0]), strip_all(arg["c"][1])
+                    for base, inc in ((a, b), (b, a)):
+                        if _size_of(base, bd) or (base is not None and base.get("k") == "DeclRefExpr" and base.get("d") in sizes):
+                            verdict = bounded(inc)
+                elif arg is not None and arg.get("k") == "DeclRefExpr" and arg.get("d") == lenp["d"]:
+                    verdict = True
+                if verdict is None:
+                    r.undecided.append("%s: cannot bound `%s` against the requested length" % (fn.loc(n), show(n)))
+                    continue
+                r.add(key, fn.loc(n), verdict, "grows by at most what is still missing" if verdict else
+                      "`%s`: the amount added is not limited to what is still missing of the %s bytes requested, so "
+                      "a request larger than one chunk returns more than it asked for (and differs from the sibling "
+                      "implementation)" % (show(n), lenp["n"]))
+    return r
+
+
 def run(ctx):
     prog = ctx.prog("dfs", "N")
     return [rule_hint_name(prog), rule_gzip_only(prog), rule_zlib_census(prog), rule_all_members(prog),
-            rule_openers(prog)]
+            rule_openers(prog), rule_read_length(prog)]
 
 
 SELFTESTS = [
